@@ -1,7 +1,11 @@
 (* C17 — Method dispatch: exact names, first-dot service split, reserved rpc.* names.
-   This file only restates the property theorems; proofs are in disp/DispatchProofs.v. *)
-From Coq Require Import List NArith Bool Sorting.Sorted.
-From JV Require Import Bytes Sort Dispatch DispatchProofs.
+   This file only restates the property theorems; proofs are in disp/DispatchProofs.v and
+   disp/DispatchMore.v (the latter also links the dispatch model to the server model,
+   srv/SrvModel.v, and models the request context) and disp/DispatchReach.v (the gate as an
+   invariant of the server model's transition system). *)
+From Coq Require Import List NArith Bool Sorting.Sorted Sorting.Permutation.
+From JV Require Import Bytes Sort Msg Dispatch DispatchProofs DispatchMore.
+From JV Require SrvModel SrvLemmas DispatchReach.
 Import ListNotations.
 Local Open Scope N_scope.
 
@@ -75,8 +79,171 @@ Theorem c17_prefix_exact : forall n,
 Proof. exact prefix_exact. Qed.
 Print Assumptions c17_prefix_exact.
 
+(* ---- rpc.serverInfo and Names ---- *)
+
+(* the method list of rpc.serverInfo: Names() - sorted - for an assigner that is a Namer, ["*"]
+   for one that is not (in the model: AOpaque) *)
+Theorem c17_info_methods : forall a,
+  (forall ns, names a = Some ns -> info_methods a = ns /\ Sorted ble_rel ns) /\
+  (names a = None -> info_methods a = [star]) /\
+  (names a = None <-> exists m, a = AOpaque m).
+Proof. exact info_methods_spec. Qed.
+Print Assumptions c17_info_methods.
+
+(* 'Names lists every method': for a Map (a Go map: every key once) Names() is a duplicate-free,
+   sorted permutation of the keys *)
+Theorem c17_names_nodup : forall m,
+  NoDup (map fst m) ->
+  exists ns, names (AMap m) = Some ns /\ NoDup ns /\ Permutation (map fst m) ns /\ Sorted ble_rel ns.
+Proof. exact names_map_nodup. Qed.
+Print Assumptions c17_names_nodup.
+
+(* ---- the link to the server model ---- *)
+
+(* What the server model (srv/SrvModel.v, the transition system of C01..C12) does when it assigns
+   a method IS the gate above, applied to the Map of the model's method names (handler identities
+   do not matter to the server model: 0 for all); Some true = the built-in rpc.serverInfo.  So
+   the c17_*gate* theorems speak about every task the server model makes. *)
+Theorem c17_server_model_link : forall s m,
+  SrvModel.assign_method s m =
+  option_map is_builtin (server_assign (SrvModel.c_builtin s) (methods_assigner (SrvModel.c_methods s)) m).
+Proof. exact assign_method_link. Qed.
+Print Assumptions c17_server_model_link.
+
+Theorem c17_server_model_names : forall ms,
+  exists ns, names (methods_assigner ms) = Some ns /\ Permutation ms ns /\ Sorted ble_rel ns.
+Proof. exact methods_assigner_names. Qed.
+Print Assumptions c17_server_model_names.
+
+(* A request that passed the pre-checks (no duplicate id, no deferred error, non-empty method):
+   setContext ran, and the task is what the gate says for its method - `method not found` when the
+   gate yields no target; ready to run, as the built-in or as a user handler, otherwise. *)
+Theorem c17_task_dispatch : forall s u ids m,
+  SrvModel.pre_err s ids m = None -> j_method m <> [] ->
+  let t := SrvModel.mk_task s u ids m in
+  SrvModel.t_hasctx t = true /\ SrvModel.t_method t = j_method m /\
+  match server_assign (SrvModel.c_builtin s) (methods_assigner (SrvModel.c_methods s)) (j_method m) with
+  | None => SrvModel.t_pre t = Some SrvModel.err_not_found /\ SrvModel.t_st t = SrvModel.TSkip /\
+            SrvModel.t_builtin t = false
+  | Some tg => SrvModel.t_pre t = None /\ SrvModel.t_st t = SrvModel.TAtAcquire /\
+               SrvModel.t_builtin t = is_builtin tg
+  end.
+Proof. exact mk_task_dispatch. Qed.
+Print Assumptions c17_task_dispatch.
+
+(* ... spelled out: a reserved rpc.* name other than rpc.serverInfo is method-not-found whatever
+   the user's methods are (rpc.serverInfo is the built-in); every other name - and every name with
+   DisableBuiltin - is method-not-found iff the assigner does not have it *)
+Theorem c17_task_gate : forall s u ids m,
+  SrvModel.pre_err s ids m = None -> j_method m <> [] ->
+  let t := SrvModel.mk_task s u ids m in
+  (SrvModel.c_builtin s = true -> has_prefix rpc_prefix (j_method m) = true ->
+     (j_method m = rpc_server_info ->
+        SrvModel.t_pre t = None /\ SrvModel.t_builtin t = true /\ SrvModel.t_st t = SrvModel.TAtAcquire) /\
+     (j_method m <> rpc_server_info ->
+        SrvModel.t_pre t = Some SrvModel.err_not_found /\ SrvModel.t_st t = SrvModel.TSkip)) /\
+  (SrvModel.c_builtin s = false \/ has_prefix rpc_prefix (j_method m) = false ->
+     (assign (methods_assigner (SrvModel.c_methods s)) (j_method m) = None <->
+        ~ In (j_method m) (SrvModel.c_methods s)) /\
+     (~ In (j_method m) (SrvModel.c_methods s) ->
+        SrvModel.t_pre t = Some SrvModel.err_not_found /\ SrvModel.t_st t = SrvModel.TSkip) /\
+     (In (j_method m) (SrvModel.c_methods s) ->
+        SrvModel.t_pre t = None /\ SrvModel.t_builtin t = false /\ SrvModel.t_st t = SrvModel.TAtAcquire)).
+Proof. exact mk_task_gate. Qed.
+Print Assumptions c17_task_gate.
+
+(* The pre-gates.  A request with a duplicate id or a deferred validation error, or with an empty
+   method name, fails BEFORE setContext and the assignment: the assigner is not consulted - the
+   task is the same for every method set and either DisableBuiltin setting (s' is any state with
+   the same ids in use) - and it carries no context. *)
+Theorem c17_task_pregate : forall s s' u ids m,
+  SrvModel.used s = SrvModel.used s' ->
+  SrvModel.pre_err s ids m <> None \/ j_method m = [] ->
+  let t := SrvModel.mk_task s u ids m in
+  SrvModel.mk_task s' u ids m = t /\ SrvModel.t_hasctx t = false /\ SrvModel.t_st t = SrvModel.TSkip /\
+  SrvModel.t_builtin t = false /\
+  (forall e, SrvModel.pre_err s ids m = Some e -> SrvModel.t_pre t = Some e) /\
+  (SrvModel.pre_err s ids m = None -> SrvModel.t_pre t = Some SrvModel.err_empty_method).
+Proof. exact mk_task_pregate. Qed.
+Print Assumptions c17_task_pregate.
+
+Theorem c17_duplicate_id_pregate : forall s ids m,
+  fix_id (j_id m) <> [] ->
+  SrvModel.assoc (fix_id (j_id m)) (SrvModel.used s) <> None \/
+    (1 < SrvModel.count_bytes (fix_id (j_id m)) ids)%nat ->
+  SrvModel.pre_err s ids m = Some SrvModel.err_dup.
+Proof. exact pre_err_duplicate. Qed.
+Print Assumptions c17_duplicate_id_pregate.
+
+(* every task of the transition system is made this way: the dispatcher's nextRequest step
+   (label LRelNext) appends mk_task of every member of the batch at the head of the queue *)
+Theorem c17_tasks_made_by_mk_task : forall s batch ms q,
+  SrvModel.inq s = (batch, ms) :: q ->
+  SrvModel.tasks (SrvModel.dequeue s) =
+  SrvModel.tasks s ++
+  map (SrvModel.mk_task s (length (SrvModel.units s)) (map (fun m => fix_id (j_id m)) ms)) ms.
+Proof. exact dequeue_tasks. Qed.
+Print Assumptions c17_tasks_made_by_mk_task.
+
+(* ON THE TRANSITION SYSTEM.  In every reachable state of a server with configuration c (method
+   names cf_methods c, built-ins enabled iff cf_builtin c), every task whose context was attached
+   is exactly what the gate says for its method under THAT configuration - method-not-found when
+   the gate yields no target, otherwise no error and the built-in flag of the target - and every
+   other task failed a pre-check (it has an error; the assigner was never consulted). *)
+Theorem c17_reach_gated : forall c s k t,
+  SrvLemmas.reach c s -> nth_error (SrvModel.tasks s) k = Some t ->
+  (SrvModel.t_hasctx t = true ->
+     match server_assign (SrvLemmas.cf_builtin c) (methods_assigner (SrvLemmas.cf_methods c)) (SrvModel.t_method t) with
+     | None => SrvModel.t_pre t = Some SrvModel.err_not_found
+     | Some tg => SrvModel.t_pre t = None /\ SrvModel.t_builtin t = is_builtin tg
+     end) /\
+  (SrvModel.t_hasctx t = false -> SrvModel.t_pre t <> None /\ SrvModel.t_builtin t = false).
+Proof. exact DispatchReach.reach_gated. Qed.
+Print Assumptions c17_reach_gated.
+
+(* ... so a task that may run (only tasks without a recorded error ever start a handler: C02) is
+   either the built-in rpc.serverInfo - only while built-ins are enabled - or a method the
+   assigner has under its exact name, and never a reserved rpc.* name while built-ins are enabled *)
+Theorem c17_reach_runnable_assigned : forall c s k t,
+  SrvLemmas.reach c s -> nth_error (SrvModel.tasks s) k = Some t -> SrvModel.t_pre t = None ->
+  (SrvModel.t_builtin t = true /\ SrvLemmas.cf_builtin c = true /\ SrvModel.t_method t = rpc_server_info) \/
+  (SrvModel.t_builtin t = false /\ In (SrvModel.t_method t) (SrvLemmas.cf_methods c) /\
+   (SrvLemmas.cf_builtin c = true -> has_prefix rpc_prefix (SrvModel.t_method t) = false)).
+Proof. exact DispatchReach.reach_runnable_assigned. Qed.
+Print Assumptions c17_reach_runnable_assigned.
+
+(* ---- the context ---- *)
+
+(* (definitional: the extracted dispatch_request hands the request itself to both) *)
 Theorem c17_context : forall b a r,
   d_ctx_assigner (dispatch_request b a r) = r /\ d_ctx_handler (dispatch_request b a r) = r /\
   d_target (dispatch_request b a r) = server_assign b a (rq_method r).
 Proof. exact context_is_request. Qed.
 Print Assumptions c17_context.
+
+(* The context with content.  A context is what ctx.go can observe of it: the request stored under
+   inboundRequestKey (inbound_request = InboundRequest) and whether a server is stored under
+   serverKey (server_from_context = ServerFromContext, which panics without one).  setContext
+   attaches the request BEFORE the assignment; the server is added in invoke, for the handler only
+   (server.go).  dispatch_request' gives the context the assigner is called with (None: it is not
+   called - a reserved name while built-ins are enabled) and the one the handler is called with
+   (None: no handler).  Then: same target and same inbound request as the extracted
+   dispatch_request; assigner and handler both see the request being dispatched; the handler's
+   context has the server and is the assigner's context plus the server; the ASSIGNER's context has
+   NO server (ServerFromContext panics there). *)
+Theorem c17_context_observed : forall b a r,
+  let d := dispatch_request' b a r in
+  d'_target d = d_target (dispatch_request b a r) /\
+  (forall c, d'_ctx_assigner d = Some c ->
+     inbound_request c = Some (d_ctx_assigner (dispatch_request b a r))) /\
+  (forall c, d'_ctx_handler d = Some c ->
+     inbound_request c = Some (d_ctx_handler (dispatch_request b a r))) /\
+  (forall c, d'_ctx_assigner d = Some c -> inbound_request c = Some r) /\
+  (forall c, d'_ctx_handler d = Some c -> inbound_request c = Some r) /\
+  (forall c, d'_ctx_handler d = Some c -> server_from_context c = SfcServer) /\
+  (forall c, d'_ctx_assigner d = Some c -> server_from_context c = SfcPanic) /\
+  (d'_ctx_assigner d = None <-> b = true /\ has_prefix rpc_prefix (rq_method r) = true) /\
+  (d'_ctx_handler d = None <-> d'_target d = None) /\
+  (forall ca ch, d'_ctx_assigner d = Some ca -> d'_ctx_handler d = Some ch -> ch = invoke_ctx ca).
+Proof. exact dispatch_context. Qed.
+Print Assumptions c17_context_observed.
